@@ -43,6 +43,23 @@ type lockCounter struct {
 	readsLocked, readsUnlocked int
 	writesLocked, writesUnl    int
 	runProbe                   string // held? when the protocol run was observed: "1" | "0" | "-"
+	waiting                    int    // callers inside LockKeyshare that have not got the lock yet
+}
+
+func (c *lockCounter) wait(d int) {
+	c.mu.Lock()
+	c.waiting += d
+	c.mu.Unlock()
+}
+func (c *lockCounter) waitingNow() int {
+	c.mu.Lock()
+	defer c.mu.Unlock()
+	return c.waiting
+}
+func (c *lockCounter) locksNow() int {
+	c.mu.Lock()
+	defer c.mu.Unlock()
+	return c.locks
 }
 
 func (c *lockCounter) locked() {
@@ -100,7 +117,7 @@ type cntECDSA struct {
 	c     *lockCounter
 }
 
-func (s *cntECDSA) LockKeyshare() { s.inner.LockKeyshare(); s.c.locked() }
+func (s *cntECDSA) LockKeyshare() { s.c.wait(1); s.inner.LockKeyshare(); s.c.wait(-1); s.c.locked() }
 func (s *cntECDSA) UnlockKeyshare() {
 	if s.c.tryUnlock() {
 		s.inner.UnlockKeyshare()
@@ -120,7 +137,7 @@ type cntFrost struct {
 	c     *lockCounter
 }
 
-func (s *cntFrost) LockKeyshare() { s.inner.LockKeyshare(); s.c.locked() }
+func (s *cntFrost) LockKeyshare() { s.c.wait(1); s.inner.LockKeyshare(); s.c.wait(-1); s.c.locked() }
 func (s *cntFrost) UnlockKeyshare() {
 	if s.c.tryUnlock() {
 		s.inner.UnlockKeyshare()
@@ -360,6 +377,9 @@ func (w *c10world) cell(kind, oc string) string {
 			return "hang"
 		}
 	}
+	if oc == "busy" {
+		return w.busyCell(kind, sid)
+	}
 	proc, cnt, ok := w.mk(kind, nd, sid, threshold)
 	if !ok {
 		return "ctorerr;" + cnt.String()
@@ -373,6 +393,9 @@ func (w *c10world) cell(kind, oc string) string {
 	ctx, cancel := context.WithCancel(context.Background())
 	defer cancel()
 	ret := make(chan error, 1)
+	if oc == "precancel" {
+		cancel() // the caller gave up between constructing the process and executing it
+	}
 	go func() { ret <- nd.coord.Execute(ctx, []tss.TssProcess{proc}, make(chan interface{}, 4)) }()
 	ghost := w.nodes[1].ledger
 	subscribed := func() bool { return nd.ledger.inner.VerifLiveSubscriptions(sid) >= live0+3 }
@@ -670,11 +693,12 @@ func c9rerunRun(a []string) string {
 }
 
 // C10.ctor <kind> <variant>   the constructor alone, on every way it can go wrong after it took the lock:
-//   noshare (share file missing) | badshare (file is not JSON) | emptyshare (empty file), and for FROST signing with a
-//   good share a tweak that is not hex (tweakhex), is hex of the wrong length (tweaklen), or is 32 bytes that are not a
-//   scalar below the group order (tweakorder). No process object exists after a failed constructor, so nothing will
-//   ever Stop it: the lock must be balanced right there. A constructor that succeeds is stopped by the harness.
-//   => ctorerr;L=… | ctorok;L=… (after Stop)
+//
+//	noshare (share file missing) | badshare (file is not JSON) | emptyshare (empty file), and for FROST signing with a
+//	good share a tweak that is not hex (tweakhex), is hex of the wrong length (tweaklen), or is 32 bytes that are not a
+//	scalar below the group order (tweakorder). No process object exists after a failed constructor, so nothing will
+//	ever Stop it: the lock must be balanced right there. A constructor that succeeds is stopped by the harness.
+//	=> ctorerr;L=… | ctorok;L=… (after Stop)
 func c10ctor(a []string) string {
 	kind, variant := a[0], a[1]
 	w := newC10World(1, strings.HasPrefix(variant, "tweak"))
@@ -739,7 +763,7 @@ func genC10(g *G) {
 	}
 	c10prefetch("cell", c10cellRun, "fsigning", "retried")
 	for _, k := range c10kinds {
-		for _, oc := range []string{"refused", "silent", "gto", "cancel", "rejected", "failed", "retried", "noshare"} {
+		for _, oc := range []string{"refused", "silent", "gto", "cancel", "precancel", "busy", "rejected", "failed", "retried", "noshare"} {
 			if oc == "failed" && k == "ekeygen" {
 				continue // safe-prime generation inside Party.Start (tens of seconds): thorough tier only, emitted last
 			}
@@ -755,6 +779,12 @@ func genC10(g *G) {
 			g.Emit("cell", k, oc)
 		}
 	}
+	// the production entry points: the three event handlers of chains/evm/listener/eventHandlers/tss.go
+	for _, h := range []string{"keygen", "fkeygen", "refresh"} {
+		for _, oc := range []string{"noevents", "fetcherr", "silent", "gto", "refused"} {
+			g.Emit("handler", h, oc)
+		}
+	}
 	// constructor-only cells: every kind x every way the share can be unusable, and the bad tweaks of FROST signing
 	for _, k := range c10kinds {
 		for _, v := range []string{"noshare", "badshare", "emptyshare"} {
@@ -766,7 +796,7 @@ func genC10(g *G) {
 	}
 	// sequences of sessions sharing the stores (kinds on the ECDSA store and on the FROST store interleaved)
 	seqKinds := []string{"ekeygen", "fkeygen", "eresharing", "fresharing", "esigning", "fsigning"}
-	seqOuts := []string{"refused", "silent", "gto", "cancel", "rejected"}
+	seqOuts := []string{"refused", "silent", "gto", "cancel", "precancel", "busy", "rejected"}
 	g.Emit("seq", "eresharing:refused,esigning:silent,ekeygen:cancel,eresharing:rejected,fkeygen:refused,fresharing:gto,fsigning:rejected")
 	for i := 0; i < g.Count(6, 60); i++ {
 		n := 2 + g.Intn(6)
